@@ -335,6 +335,182 @@ func (c *Ctx) c14drive(f c14file) {
 		spec = "all"
 	}
 	c.Emit("c14."+f.format+".cuts", pre+c15hex(f.model)+" "+spec, c14rle(ks, cls))
+	for i := 0; i < 3; i++ {
+		c.c14malformed(f)
+	}
+}
+
+
+// ---- malformed stream: single mutations of valid files; the class of the WHOLE mutated file is compared
+// (the property speaks about rejection; this ties the model's error branches outside the prefix space) -----------
+
+func (c *Ctx) c14mutateText(data []byte, bodyStart int) ([]byte, string) {
+	body := string(data[bodyStart:])
+	lines := strings.Split(strings.TrimRight(body, "\n"), "\n")
+	if len(lines) == 0 || (len(lines) == 1 && lines[0] == "") {
+		return nil, ""
+	}
+	li := c.Rng.Intn(len(lines))
+	toks := strings.Fields(lines[li])
+	kind := ""
+	switch c.Rng.Intn(9) {
+	case 0:
+		kind = "blank-line-inserted"
+		lines = append(lines[:li], append([]string{""}, lines[li:]...)...)
+	case 1:
+		kind = "whitespace-line-inserted"
+		lines = append(lines[:li], append([]string{"  "}, lines[li:]...)...)
+	case 2:
+		kind = "line-deleted"
+		lines = append(lines[:li], lines[li+1:]...)
+	case 3:
+		if len(toks) == 0 {
+			return nil, ""
+		}
+		kind = "token-deleted"
+		ti := c.Rng.Intn(len(toks))
+		toks = append(toks[:ti], toks[ti+1:]...)
+		lines[li] = strings.Join(toks, " ")
+	case 4:
+		if len(toks) == 0 {
+			return nil, ""
+		}
+		kind = "token-not-a-number"
+		toks[c.Rng.Intn(len(toks))] = []string{"abc", "1.2.3", "--1", "1e", "+", "."}[c.Rng.Intn(6)]
+		lines[li] = strings.Join(toks, " ")
+	case 5:
+		if len(toks) == 0 {
+			return nil, ""
+		}
+		kind = "first-token-changed"
+		toks[0] = []string{"-1", "0", "2", "5", "9", "1.5"}[c.Rng.Intn(6)]
+		lines[li] = strings.Join(toks, " ")
+	case 6:
+		kind = "token-appended"
+		lines[li] = lines[li] + " 7"
+	case 7:
+		kind = "line-duplicated"
+		lines = append(lines[:li], append([]string{lines[li]}, lines[li:]...)...)
+	case 8:
+		kind = "leading-space"
+		lines[li] = " " + lines[li]
+	}
+	out := append([]byte{}, data[:bodyStart]...)
+	out = append(out, []byte(strings.Join(lines, "\n")+"\n")...)
+	return out, kind
+}
+
+func c14plyBodyStart(data []byte) int {
+	i := bytes.Index(data, []byte("end_header\n"))
+	if i < 0 {
+		i = bytes.Index(data, []byte("end_header\r\n"))
+		if i < 0 {
+			return -1
+		}
+		return i + len("end_header\r\n")
+	}
+	return i + len("end_header\n")
+}
+
+func (c *Ctx) c14malformed(f c14file) {
+	var mut []byte
+	kind := ""
+	switch {
+	case f.format == "ply" && f.ascii:
+		bs := c14plyBodyStart(f.data)
+		if bs < 0 {
+			return
+		}
+		if c.Rng.Intn(4) == 0 {
+			// header count changed: the header description is re-derived from the real ReadHeader
+			h := string(f.data[:bs])
+			re := []string{"element vertex ", "element face "}[c.Rng.Intn(2)]
+			i := strings.Index(h, re)
+			if i < 0 {
+				return
+			}
+			j := i + len(re)
+			e := j
+			for e < len(h) && h[e] >= '0' && h[e] <= '9' {
+				e++
+			}
+			var n int
+			fmt.Sscanf(h[j:e], "%d", &n)
+			n2 := n + []int{-1, 1, 2}[c.Rng.Intn(3)]
+			if n2 < 0 {
+				n2 = 0
+			}
+			mut = []byte(h[:j] + fmt.Sprint(n2) + h[e:] + string(f.data[bs:]))
+			kind = "header-count-changed"
+		} else {
+			mut, kind = c.c14mutateText(f.data, bs)
+		}
+	case f.format == "pts":
+		if c.Rng.Intn(4) == 0 && len(f.data) > 0 {
+			mut = append([]byte([]string{"", " ", "x", "+", "3 "}[c.Rng.Intn(5)]), f.data...) // no "-": a negative count panics in make() (corruption, outside C14; reported)
+			kind = "count-line-garbled"
+		} else {
+			// point lines only: a "-1" on the count line is the negative-count panic again
+			mut, kind = c.c14mutateText(f.data, bytes.IndexByte(f.data, '\n')+1)
+		}
+	case f.format == "ply" || f.format == "stl" || f.format == "splat":
+		if len(f.data) < 2 {
+			return
+		}
+		switch c.Rng.Intn(3) {
+		case 0:
+			mut, kind = append(append([]byte{}, f.data...), byte(c.Rng.Intn(256))), "byte-appended"
+		case 1:
+			at := len(f.data) / 2
+			if f.format == "stl" {
+				// not inside header/count: a corrupted count makes stl.Read allocate count*50 bytes up front
+				// (observed: 1e9 triangles -> deadline overrun); corruption is outside C14, truncation is not
+				if len(f.data) <= 84 {
+					return
+				}
+				at = 84 + c.Rng.Intn(len(f.data)-84)
+			}
+			if f.format == "ply" {
+				if !strings.HasSuffix(f.desc, " 0") {
+					// a face element: shifted bytes become arbitrary vertex indices, which MeshReader.Read does not
+					// range-check (the unweld step then panics): data corruption, outside C14
+					return
+				}
+				if bs := c14plyBodyStart(f.data); bs >= 0 && bs < len(f.data) {
+					at = bs + c.Rng.Intn(len(f.data)-bs)
+				}
+			}
+			mut, kind = append(append([]byte{}, f.data[:at]...), f.data[at+1:]...), "byte-deleted"
+		case 2:
+			if f.format == "stl" && len(f.data) >= 84 {
+				mut = append([]byte{}, f.data...)
+				mut[80] += byte(1 + c.Rng.Intn(3))
+				kind = "count-increased"
+			}
+		}
+	}
+	if mut == nil {
+		return
+	}
+	g := f
+	g.data, g.model = mut, mut
+	if f.format == "ply" {
+		desc, ok := c14plyDesc(mut)
+		if !ok {
+			return
+		}
+		g.desc = desc
+	}
+	pre := ""
+	if g.desc != "" {
+		pre = g.desc + " "
+	}
+	r := c14guard(func() c14out { return g.read(mut) })
+	c.Note("c14.malformed." + f.format + "." + kind + "." + strings.SplitN(r.class, ":", 2)[0])
+	c.Emit("c14."+g.format+".cut", pre+c15hex(mut), r.class)
+	if r.class == "timeout" {
+		c.c14flushExit()
+	}
 }
 
 // ---- generators -----------------------------------------------------------------------------------------
